@@ -12,7 +12,7 @@ from genlm.grammar.wfsa.field_wfsa import WFSA as FieldWFSA
 from genlm.grammar.semiring import Float
 
 MODULE = "TraceField"
-SIG = ["a", "b"]
+SIG = ["a", "b", "c"]
 
 
 def build(M):
@@ -58,7 +58,7 @@ def f_eq(a):
 def f_min(a):
     A = build(a["A"])
     m = A.min
-    vals = [[list(s), enc_rat(m(s))] for s in fam.strings(SIG, a["L"])]
+    vals = [[list(s), enc_rat(m(s))] for s in fam.strings(SIG[:2], a["L"])]
     return {"op": "min", "A": a["A"], "sigma": SIG, "dim": int(m.dim), "vals": vals}
 
 
@@ -101,6 +101,11 @@ def variant(rng, A, kind):
         B["n"] = n + 1                       # an unreachable state with arcs back into the machine
         B["arcs"].append([n, "a", 0, [1, 2]])
         B["F"].append([n, [1, 1]])
+        return B
+    if kind == "deadsym":
+        B["n"] = n + 2                       # a symbol used only on states that carry no weight to any string
+        B["arcs"].append([n, "c", n + 1, [1, 2]])
+        B["arcs"].append([0, "c", n, [1, 2]] if rng.random() < 0.5 else [n + 1, "c", n, [1, 4]])
         return B
     if kind == "split":
         # state 0's initial weight split over a duplicate of state 0 (same outgoing arcs, same final weight)
@@ -146,7 +151,7 @@ def generate(rng, tier, shard, nshards):
             A["F"] = []                      # empty language
         featA = aops.afeat(A) + ("+emptylang" if not A["F"] else "")
         yield event("min", {"A": A, "L": 3}, site="WFSA.min", feat=featA)
-        for kind in ("same", "perm", "redundant", "split", "tweak", "empty", "random"):
+        for kind in ("same", "perm", "redundant", "deadsym", "split", "tweak", "empty", "random"):
             if kind == "random":
                 B = aops.rand_wfsa(rng, "Rat", nS=rng.choice([1, 2, 3]), narcs=3, labels=("a", "b"), eps_acyclic=True, acyclic=True)
             else:
